@@ -408,10 +408,12 @@ def decDelta (C : Compressor) : Dec Delta := fun b =>
       | some bld => some (bld.finish (b.length - rest.length), rest)
 
 /-- `Delta::serialize` (threshold 16 384, `assert_eq!` on the recorded length). -/
+def encDeltaPayload (C : Compressor) (threshold : Nat) (d : Delta) : Bytes :=
+  (d.ops.foldl (fun w op => w.append C (encOp op)) ({ threshold := threshold } : Writer)).finish C
+
 def encDelta (C : Compressor) (d : Delta) : Except Panic Bytes :=
-  let w := d.ops.foldl (fun w op => w.append C (encOp op)) ({ threshold := 16384 } : Writer)
-  let payload := w.finish C
-  if payload.length = d.serializedLen then .ok payload else .error .serializedLenMismatch
+  if (encDeltaPayload C 16384 d).length = d.serializedLen then .ok (encDeltaPayload C 16384 d)
+  else .error .serializedLenMismatch
 
 structure DeltaSerializer where
   mtu : Nat
